@@ -8,6 +8,27 @@ BASELINE = ("cd /repo && env -u PYODA_TIME_VERIF /venv/bin/python -m pytest -ra 
             "--continue-on-collection-errors")
 
 CHECKS = {
+    "C01": dict(
+        category="model_checking",
+        text=("TLC model-checks the month-level calendar odometer of Calendars.tla over the real year ranges (bijection, order, "
+              "year closure); the real package is walked day by day through several routes (day->date, date->day, plus_days, "
+              "comparison, other-calendar round trip, Period.days_between), run-length compressed to month runs, and TLC validates "
+              "every run/year/probe event against the self-consistency odometer (month lengths reported by the calendar define "
+              "where every day must be). Thorough walks all ~75M (calendar, day) pairs."),
+        design_ref="DESIGN.md section 5 C01",
+        note="Day numbers observed through LocalDate._days_since_epoch/_ctor(days_since_epoch); quick tier samples years (phase by seed) but covers every year boundary.",
+        technique="TLA+ calendar odometer model-checked by TLC + TLC trace validation of run-compressed walks of the real calendars",
+    ),
+    "C02": dict(
+        category="model_checking",
+        text=("Calendars.tla transcribes the published rules (Gregorian, Julian, Coptic, 8 tabular Islamic, Hebrew molad arithmetic "
+              "in both numberings, Persian simple and Birashk arithmetic) independently of the code; TLC cross-checks the oracle's "
+              "two formulations for every year, then validates every walked month run, year table, leap flag and ISO weekday of the "
+              "real package against it; ISO additionally against datetime.date day for day."),
+        design_ref="DESIGN.md section 5 C02",
+        note="Epochs are stated as Julian dates in the spec; Persian arithmetic claimed from AP 475 (earlier years reported as divergences only).",
+        technique="independent TLA+ transcription of published calendar rules + TLC trace validation of the implementation's walks",
+    ),
     "C19": dict(
         category="model_checking",
         text=("TLC explores every interleaving of the line-level FakeClock model (2 threads x 2 ops, 3 x 1, liveness, "
